@@ -329,7 +329,7 @@ func DriveMain(args []string) int {
 			why := "exit: " + fmt.Sprint(err)
 			if timedOut && cid != "" {
 				// confirm: run the suspect case alone with a generous budget
-				c2, cancel2 := context.WithTimeout(context.Background(), 4*stall)
+				c2, cancel2 := context.WithTimeout(context.Background(), 2*stall)
 				a2 := []string{"work", "--prop", *prop, "--tier", *tier, "--seed", strconv.FormatInt(seed, 10),
 					"--batch", strconv.Itoa(d.batch), "--nbatch", strconv.Itoa(d.nbatch), "--only", cid,
 					"--out", outp + ".confirm", "--log", logp + ".confirm"}
